@@ -621,7 +621,7 @@ def apply_contract(ex, st, fi, c, env, node):
             havoc_heap(ex, st, hn, preds, ovar, alive0)
     if c.allocates or star:
         a_old = ex.named_heap(st, "$alive")
-        _, a_new = ex.fresh_heap(st, "$alive")
+        _, a_new = ex.fresh_heap(st, "$alive", preds=("classes", alloc_classes(c, star)))
         o = z3.Int(f"o!{next(_uid)}")
         st.assume(smt.forall([o], z3.Implies(a_old[o], a_new[o]), patterns=[a_old[o]]))
         st.assume(smt.forall([o], z3.Implies(a_old[o], a_new[o]), patterns=[a_new[o]]))
